@@ -395,6 +395,14 @@ where
 
             let response_idx = self.state.base.get().wrapping_add(queue.len());
             queue.push_back(ServiceResult::Pending);
+            drop(queue);
+
+            // poll the call once before the next packet is read, in-flight limits
+            // of the service have to account for this request
+            if let Poll::Ready(item) = Pin::new(&mut fut).poll(cx) {
+                self.state.handle_result(item, response_idx, self.io.as_ref(), &self.codec);
+                return;
+            }
 
             let st = self.io.get_ref();
             let codec = self.codec.clone();
